@@ -184,6 +184,21 @@ def oracle(ctx):
         std, dst = int(z._std_offset.total_seconds()), int(z._dst_offset.total_seconds())
         ups += Z.year_edge_probes(Z.YEARS[1:4], (std, dst))
         law(ctx, "range", name, z, ups, extra={"saving": dst - std, "near_year_edge": Z.near_year_edge(z, Z.YEARS)})
+    # tzrange built from a tzstr zone's abbreviations, offsets and deltas: equal (__eq__, six fields)
+    # and identical answers (model: C08.tzrange_eq_tzstr)
+    for sname in Z.TZSTRS:
+        zs = tz.tzstr(sname)
+        if not zs.hasdst:
+            continue
+        zr = tz.tzrange(zs._std_abbr, zs._std_offset, zs._dst_abbr, zs._dst_offset, zs._start_delta, zs._end_delta)
+        ups, wps = Z.range_probes(zs, Z.YEARS)
+        same = (zr == zs) and (zs == zr) and not (zr != zs) and zr.hasdst == zs.hasdst \
+            and [Z.impl_fromutc_line(zr, t) for t in ups] == [Z.impl_fromutc_line(zs, t) for t in ups] \
+            and [Z.impl_wall_line(zr, w) for w in wps[::7]] == [Z.impl_wall_line(zs, w) for w in wps[::7]]
+        ctx.case(("tzrange_eq_tzstr", sname)); ctx.count("tzrange_eq_tzstr")
+        if not same:
+            ctx.violation("tzrange built from the fields of tzstr(%r) is not equal / answers differently" % sname,
+                          {"kind": "tzrange_eq", "zone": sname}, None)
     with warnings.catch_warnings():
         warnings.simplefilter("ignore")
         ical = tz.tzical(io.StringIO(Z.VTZ)).get()
